@@ -769,6 +769,11 @@ impl Format for ast::StmtKind {
             },
 
             ast::StmtKind::RelTimeLabel { delta, _absolute_time_comment } => {
+                // `+` followed by `++x` would lex as `++` `+`
+                let delta = match first_char_of_expr(delta) {
+                    Some('+') => Either::This(("(", SuppressParens(delta), ")")),
+                    _ => Either::That(delta),
+                };
                 if let Some(time) = _absolute_time_comment {
                     out.fmt_label(("+", delta, ": // ", time))?;
                 } else {
@@ -899,7 +904,17 @@ impl Format for ast::Expr {
             },
             ast::Expr::UnOp(op, x) => match op.value {
                 | token![unop -] | token![!] | token![~]
-                    => out.fmt_optional_parens(|out| out.fmt((op, x))),
+                    => out.fmt_optional_parens(|out| {
+                        // The operand is written directly after the operator.  Parenthesize it if its
+                        // text would fuse with the operator into a different token (`--3`, `---x`, `!X`
+                        // which lexes as a difficulty string) or would put two prefix operators in a row
+                        // (`~-3`), neither of which parses back.
+                        if operand_fuses_with_prefix_op(op.value, x) {
+                            out.fmt((op, "(", SuppressParens(x), ")"))
+                        } else {
+                            out.fmt((op, x))
+                        }
+                    }),
 
                 | token![unop $] | token![unop %]
                 | token![unop int] | token![unop float]
@@ -977,6 +992,22 @@ impl Format for ast::VarName {
             ast::VarName::Normal { ident, language_if_reg: _ } => out.fmt(ident),
             ast::VarName::Reg { reg, language: _ } => out.fmt(("REG[", reg.0, "]")),
         }
+    }
+}
+
+/// First character of the text that an expression is written as when it is an operand.
+fn first_char_of_expr(expr: &ast::Expr) -> Option<char> {
+    stringify(expr).chars().next()
+}
+
+/// Whether an operand cannot be written directly after a prefix operator.
+fn operand_fuses_with_prefix_op(op: ast::UnOpKind, operand: &ast::Expr) -> bool {
+    match (op, first_char_of_expr(operand)) {
+        // `--` is the decrement token, and the grammar has no `- -x`, `! -x` or `~ -x`
+        (_, Some('-')) => true,
+        // `![-*ENHLWXYZO4567]+` is a difficulty string token
+        (ast::UnOpKind::Not, Some(c)) => "*ENHLWXYZO4567".contains(c),
+        _ => false,
     }
 }
 
